@@ -44,7 +44,7 @@ impl Check for C07 {
         "reads_compared"
     }
     fn rule(&self) -> String {
-        "G2 transition systems (<=4 states incl. array states, <=3 inputs, init chains reading earlier states, const states, states without a next function (in half of the systems; they keep their value) at any position among the states, shared sub-terms; widths up to 131 bits (a third of the systems use multi-word values; multiplications wider than 128 bits are not generated); no div/rem and no array equality because the evaluator does not implement / mis-implements them, which is C06 territory) x operation histories of 5..60 operations {init(Zero|Random(seed)), set(input), step, take_snapshot, restore_snapshot(any earlier id, repeatedly, out of order), re-init}; after EVERY operation every root expression, every state/input symbol and up to 6 inner nodes are read through Simulator::get and compared with the reference simulator R3. Random init: free values are read back (seed-defined), states with init must equal their init expression, and a fresh interpreter with the same seed must give the same values. mode corpus: the shipped btor2 designs that stay inside that operator domain (memories up to 2^12 cells) get three such histories each. distinct_nontrivial = distinct (system, history) pairs with at least one step and one input change.".into()
+        "G2 transition systems (<=4 states incl. array states, <=3 inputs, init chains reading earlier states, const states, states without a next function (in half of the systems; they keep their value) at any position among the states, shared sub-terms; widths up to 131 bits (a third of the systems use multi-word values; multiplications wider than 128 bits are not generated); no div/rem and no array equality because the evaluator does not implement / mis-implements them, which is C06 territory) x operation histories of 5..60 operations {init(Zero|Random(seed)), set(input), step, take_snapshot, restore_snapshot(any earlier id, repeatedly, out of order), re-init}; after EVERY operation every root expression, every state/input symbol and up to 6 inner nodes are read through Simulator::get and compared with the reference simulator R3. Random init: free values are read back (seed-defined), states with init must equal their init expression, and a fresh interpreter with the same seed must give the same values. mode corpus: the shipped btor2 designs that stay inside that operator domain (memories up to 2^12 cells, no array-typed inputs) get three such histories each. distinct_nontrivial = distinct (system, history) pairs with at least one step and one input change.".into()
     }
     fn assumptions(&self) -> Vec<String> {
         vec![
@@ -71,6 +71,9 @@ impl Check for C07 {
                     || matches!(e.get_type(&ctx), Type::Array(a) if a.index_width > 12)
                     || (r2::op_name(&ctx[*e]) == "mul" && matches!(e.get_type(&ctx), Type::BV(w) if w > 128))
             });
+            // (array-typed inputs - states of the file without init and next - cannot be set again after a restore,
+            // which the histories rely on, see the assumptions)
+            let outside = outside || sys.inputs.iter().any(|i| matches!(i.get_type(&ctx), Type::Array(_)));
             if outside {
                 sh.count("corpus_files_outside_the_domain", 1);
                 return;
